@@ -22,10 +22,68 @@ type c03Tok struct {
 func (h *c03Harness) generate(steps int, emit func(op string)) {
 	rng := h.r.Rng
 	emit("reset")
+	// one history in four works at the uint256 boundaries: supplies up to 2^256-1, amounts and fees at 2^63, 2^64, 2^128,
+	// 2^255, 2^256-1, unlimited allowances, binding scales 18 / 77 / 78 / 255
+	big256 := rng.Intn(4) == 0
+	pow2 := func(n uint) *big.Int { return new(big.Int).Lsh(big.NewInt(1), n) }
+	maxU := new(big.Int).Sub(pow2(256), big.NewInt(1))
+	bounds := []*big.Int{pow2(31), pow2(32), new(big.Int).Add(pow2(53), big.NewInt(1)), new(big.Int).Sub(pow2(63), big.NewInt(1)), pow2(63),
+		new(big.Int).Sub(pow2(64), big.NewInt(1)), pow2(64), pow2(128), pow2(255), maxU,
+		new(big.Int).Exp(big.NewInt(10), big.NewInt(19), nil), new(big.Int).Exp(big.NewInt(10), big.NewInt(30), nil)}
+	// a boundary value that is at most b (nil if there is none)
+	boundUpTo := func(b *big.Int) *big.Int {
+		var ok []*big.Int
+		for _, x := range bounds {
+			if x.Cmp(b) <= 0 {
+				ok = append(ok, x)
+			}
+		}
+		if len(ok) == 0 {
+			return nil
+		}
+		return ok[rng.Intn(len(ok))]
+	}
+	// a value in 0..b for balances of any size
+	randUpTo := func(b *big.Int) *big.Int {
+		if b.Sign() <= 0 {
+			return big.NewInt(0)
+		}
+		if b.IsInt64() {
+			return big.NewInt(rng.Int63n(b.Int64() + 1))
+		}
+		switch rng.Intn(4) {
+		case 0:
+			return new(big.Int).Div(b, big.NewInt(int64(2+rng.Intn(5))))
+		case 1:
+			return new(big.Int).Sub(b, big.NewInt(int64(rng.Intn(3))))
+		}
+		if x := boundUpTo(b); x != nil {
+			return x
+		}
+		return new(big.Int).Div(b, big.NewInt(3))
+	}
 	toks := [c03NChains][]c03Tok{}
 	for c := 0; c < c03NChains; c++ {
 		toks[c] = []c03Tok{{id: 0, origin: true}, {id: 1, origin: true}}
 		emit(fmt.Sprintf("deploy %d 1", c))
+		if big256 {
+			// the user holds most of a supply that may be full; a second mint then fails (total supply is a checked uint256)
+			first := []*big.Int{maxU, pow2(255), new(big.Int).Sub(maxU, pow2(128)), new(big.Int).Add(pow2(255), pow2(64))}[rng.Intn(4)]
+			emit(fmt.Sprintf("mint %d 1 0 %s", c, first))
+			emit(fmt.Sprintf("approve %d 1 0 %s", c, []*big.Int{maxU, maxU, new(big.Int).Sub(maxU, big.NewInt(1))}[rng.Intn(3)]))
+			if rng.Intn(2) == 0 {
+				emit(fmt.Sprintf("mint %d 1 8 %s", c, []*big.Int{big.NewInt(1), pow2(128), pow2(255)}[rng.Intn(3)]))
+			}
+			for _, a := range []int{c03AccU8, c03AccU9} {
+				emit(fmt.Sprintf("transfer %d 1 0 %d %s", c, a, []*big.Int{pow2(64), pow2(128), pow2(200)}[rng.Intn(3)]))
+				emit(fmt.Sprintf("approve %d 1 %d %s", c, a, []*big.Int{maxU, pow2(255), pow2(128)}[rng.Intn(3)]))
+				emit(fmt.Sprintf("transfer %d 0 0 %d %d", c, a, 500+rng.Intn(3000)))
+			}
+			if rng.Intn(2) == 0 {
+				emit(fmt.Sprintf("transfer %d 1 0 %d %s", c, c03AccFwd, pow2(uint(60+rng.Intn(140)))))
+			}
+			continue
+		}
 		emit(fmt.Sprintf("mint %d 1 0 %d", c, 5000+rng.Intn(5000)))
 		if rng.Intn(6) > 0 { // the forwarder (batching) contract holds some of the origin token
 			emit(fmt.Sprintf("mint %d 1 %d %d", c, c03AccFwd, 1000+rng.Intn(3000)))
@@ -48,6 +106,9 @@ func (h *c03Harness) generate(steps int, emit func(op string)) {
 		}
 	}
 	scaleOf := func() int {
+		if big256 && rng.Intn(2) == 0 {
+			return []int{18, 77, 78, 255, 1, 38}[rng.Intn(6)]
+		}
 		switch rng.Intn(20) {
 		case 0, 1, 2, 3, 4:
 			return 1
@@ -93,6 +154,16 @@ func (h *c03Harness) generate(steps int, emit func(op string)) {
 			}
 		}
 	}
+	// planted send counters (as an imported genesis would carry them): before any traffic on the path
+	for c := 0; c < c03NChains; c++ {
+		for d := 0; d < c03NChains; d++ {
+			if d != c && rng.Intn(7) == 0 {
+				n := []string{"4294967296", "9007199254740993", "9223372036854775807", "9223372036854775808", "9223372036854775808",
+					"18446744073709551612", "18446744073709551614"}[rng.Intn(7)]
+				emit(fmt.Sprintf("plant %d %d %s", c, d, n))
+			}
+		}
+	}
 	other := func(c int) int {
 		d := rng.Intn(c03NChains - 1)
 		if d >= c {
@@ -107,12 +178,23 @@ func (h *c03Harness) generate(steps int, emit func(op string)) {
 		case x == 1:
 			return bal.String()
 		case x == 2:
+			if bal.Cmp(maxU) >= 0 {
+				return maxU.String() // (the op language carries uint256 values only)
+			}
 			return new(big.Int).Add(bal, big.NewInt(1)).String()
 		case x == 3:
 			return "1"
 		default:
 			if bal.Sign() == 0 {
 				return fmt.Sprint(1 + rng.Intn(50))
+			}
+			if !bal.IsInt64() { // uint256 territory: mostly a boundary value that the sender can afford
+				if x < 12 {
+					if b := boundUpTo(bal); b != nil {
+						return b.String()
+					}
+				}
+				return randUpTo(bal).String()
 			}
 			m := new(big.Int).Div(bal, big.NewInt(4))
 			if m.Sign() == 0 || !m.IsInt64() {
@@ -237,9 +319,39 @@ func (h *c03Harness) generate(steps int, emit func(op string)) {
 			emit(fmt.Sprintf("register %d %d ? %d:%d", p, c03AccRelayer, p, q*16+p))
 		}
 	}
+	// a relay op, sometimes preceded (or followed) by the same transaction on a dropped context
+	relay := func(op string) {
+		sim := "sim" + op
+		switch rng.Intn(12) {
+		case 0, 1:
+			emit(sim)
+			emit(op)
+		case 2:
+			emit(op)
+			emit(sim)
+		default:
+			emit(op)
+		}
+	}
 	for s := 0; s < steps; s++ {
 		if rng.Intn(100) < 7 {
 			registryOp()
+			continue
+		}
+		switch y := rng.Intn(1000); {
+		case y < 30: // the xibc module of a chain goes through export -> import
+			emit(fmt.Sprintf("restart %d", rng.Intn(c03NChains)))
+			continue
+		case y < 38: // the whole application does
+			emit(fmt.Sprintf("restartapp %d", rng.Intn(c03NChains)))
+			continue
+		case y < 70: // the senders' callback contract starts / stops reverting
+			c := rng.Intn(c03NChains)
+			on := 1
+			if h.switchOn[c] && rng.Intn(4) > 0 {
+				on = 0
+			}
+			emit(fmt.Sprintf("cbset %d %d", c, on))
 			continue
 		}
 		var unrecv, unacked, done []*c03Obs
@@ -315,7 +427,7 @@ func (h *c03Harness) generate(steps int, emit func(op string)) {
 				}
 				amt := big.NewInt(0)
 				if budget[t.id].Sign() > 0 {
-					amt = big.NewInt(1 + rng.Int63n(new(big.Int).Div(budget[t.id], big.NewInt(3)).Int64()+1))
+					amt = new(big.Int).Add(big.NewInt(1), randUpTo(new(big.Int).Div(budget[t.id], big.NewInt(3))))
 				}
 				if !t.origin && d == t.oc && t.scale > 0 {
 					amt.Div(amt, new(big.Int).Exp(big.NewInt(10), big.NewInt(int64(t.scale)), nil))
@@ -404,9 +516,17 @@ func (h *c03Harness) generate(steps int, emit func(op string)) {
 			case 1:
 				ft = toks[c][rng.Intn(len(toks[c]))].id
 			}
-			fa := rng.Intn(20)
+			fa := big.NewInt(int64(rng.Intn(20)))
 			if rng.Intn(3) == 0 {
-				fa = 0
+				fa = big.NewInt(0)
+			}
+			if fb := h.w.balance(c, h.w.tok[c][ft], h.w.acc[snd]); !fb.IsInt64() && rng.Intn(2) == 0 { // a fee at a boundary
+				if a, ok := new(big.Int).SetString(amt, 10); ok && ft == t.id && (t.origin || d != t.oc) {
+					fb = new(big.Int).Sub(fb, a)
+				}
+				if b := boundUpTo(fb); b != nil {
+					fa = b
+				}
 			}
 			if snd != 0 && t.id != 0 {
 				// allowance management of the further senders: exact, one short, stale or none
@@ -414,21 +534,31 @@ func (h *c03Harness) generate(steps int, emit func(op string)) {
 				if !t.origin && d == t.oc {
 					a.Mul(a, new(big.Int).Exp(big.NewInt(10), big.NewInt(int64(t.scale)), nil))
 				}
+				u256 := func(x *big.Int) *big.Int { // allowances are uint256 values
+					if x.Cmp(maxU) > 0 {
+						return maxU
+					}
+					return x
+				}
 				switch rng.Intn(7) {
 				case 0, 1, 2:
 					if ft == t.id { // the fee is pulled from the same allowance
-						a.Add(a, big.NewInt(int64(fa)))
+						a.Add(a, fa)
 					}
-					emit(fmt.Sprintf("approve %d %d %d %s", c, t.id, snd, a))
+					emit(fmt.Sprintf("approve %d %d %d %s", c, t.id, snd, u256(a)))
 				case 3:
-					emit(fmt.Sprintf("approve %d %d %d %s", c, t.id, snd, new(big.Int).Add(a, big.NewInt(int64(20+rng.Intn(40))))))
+					emit(fmt.Sprintf("approve %d %d %d %s", c, t.id, snd, u256(new(big.Int).Add(a, big.NewInt(int64(20+rng.Intn(40)))))))
 				case 4:
 					if a.Sign() > 0 {
-						emit(fmt.Sprintf("approve %d %d %d %s", c, t.id, snd, new(big.Int).Sub(a, big.NewInt(1))))
+						emit(fmt.Sprintf("approve %d %d %d %s", c, t.id, snd, u256(new(big.Int).Sub(a, big.NewInt(1)))))
 					}
 				}
 			}
-			emit(fmt.Sprintf("send %d %d %d %d %s %d %d %d %s", c, snd, d, t.id, amt, rcv, ft, fa, call))
+			cb := ""
+			if !strings.HasPrefix(call, "a:") && rng.Intn(100) < 14 {
+				cb = " cb" // the sender names its callback contract (the one with the switch)
+			}
+			emit(fmt.Sprintf("send %d %d %d %d %s %d %d %s %s%s", c, snd, d, t.id, amt, rcv, ft, fa, call, cb))
 			if rng.Intn(12) == 0 { // an ordinary transfer in between (tokens reach the further senders this way too)
 				to := []int{8, 9, 6}[rng.Intn(3)]
 				emit(fmt.Sprintf("transfer %d %d %d %d %d", c, t.id, []int{0, 8}[rng.Intn(2)], to, 1+rng.Intn(200)))
@@ -438,17 +568,17 @@ func (h *c03Harness) generate(steps int, emit func(op string)) {
 			case y == 0 && len(unacked)+len(done) > 0: // duplicate delivery
 				l := append(append([]*c03Obs{}, unacked...), done...)
 				o := l[rng.Intn(len(l))]
-				emit(fmt.Sprintf("recv %d %d %d%s", o.src, o.dst, o.seq, by()))
+				relay(fmt.Sprintf("recv %d %d %d%s", o.src, o.dst, o.seq, by()))
 			case y == 1: // a packet that was never sent
 				c := rng.Intn(c03NChains)
 				d := other(c)
 				emit(fmt.Sprintf("recv %d %d %d", c, d, h.nextSeq(c, d)+uint64(rng.Intn(2))))
 			case y == 2 && len(unrecv) > 0: // altered packet
 				o := unrecv[rng.Intn(len(unrecv))]
-				emit(fmt.Sprintf("recv %d %d %d forge", o.src, o.dst, o.seq))
+				relay(fmt.Sprintf("recv %d %d %d forge", o.src, o.dst, o.seq))
 			case len(unrecv) > 0:
 				o := unrecv[rng.Intn(len(unrecv))]
-				emit(fmt.Sprintf("recv %d %d %d%s", o.src, o.dst, o.seq, by()))
+				relay(fmt.Sprintf("recv %d %d %d%s", o.src, o.dst, o.seq, by()))
 			default:
 				s--
 			}
@@ -456,16 +586,20 @@ func (h *c03Harness) generate(steps int, emit func(op string)) {
 			switch y := rng.Intn(20); {
 			case y == 0 && len(done) > 0: // duplicate acknowledgement
 				o := done[rng.Intn(len(done))]
-				emit(fmt.Sprintf("ack %d %d %d", o.src, o.dst, o.seq))
+				relay(fmt.Sprintf("ack %d %d %d", o.src, o.dst, o.seq))
 			case y == 1 && len(unrecv) > 0: // premature: nothing written yet on the destination
 				o := unrecv[rng.Intn(len(unrecv))]
 				emit(fmt.Sprintf("ack %d %d %d", o.src, o.dst, o.seq))
 			case y == 2: // the opposite outcome of what the destination wrote
 				o := unacked[rng.Intn(len(unacked))]
-				emit(fmt.Sprintf("ack %d %d %d forge", o.src, o.dst, o.seq))
+				relay(fmt.Sprintf("ack %d %d %d forge", o.src, o.dst, o.seq))
 			default:
 				o := unacked[rng.Intn(len(unacked))]
-				emit(fmt.Sprintf("ack %d %d %d%s", o.src, o.dst, o.seq, by()))
+				if o.cb && !h.switchOn[o.src] && rng.Intn(5) < 2 {
+					// the sender's callback contract happens to revert when the relayer comes: first delivery fails, retried later
+					emit(fmt.Sprintf("cbset %d 1", o.src))
+				}
+				relay(fmt.Sprintf("ack %d %d %d%s", o.src, o.dst, o.seq, by()))
 			}
 		}
 	}
@@ -476,6 +610,11 @@ func (h *c03Harness) generate(steps int, emit func(op string)) {
 		emit(defRecipient(p))
 		emit(customRecipient(p))
 		emit(fmt.Sprintf("register %d %d ?", p, c03AccU7))
+	}
+	for c := 0; c < c03NChains; c++ {
+		if h.switchOn[c] { // the callback contracts are repaired: acknowledgements that failed in the callback go through now
+			emit(fmt.Sprintf("cbset %d 0", c))
+		}
 	}
 	for round := 0; round < 4; round++ {
 		progressed := false
